@@ -242,6 +242,7 @@ func init() {
 	add("C08", "D7")
 	add("C09", "O1", "D7")
 	add("C04", "A11")
+	add("C19", "C7")
 	add("C13", "H4")
 	add("C14", "H4")
 	properties["C01"].Filter = keepIf(func(rule, key string) bool { return rule != "O1" || strings.HasPrefix(key, "writer/") })
@@ -249,6 +250,7 @@ func init() {
 	properties["C01"].Explanation += " (B2) the buffer swap is one critical section; (O1) a promise list / buffer that was handed over is replaced by a fresh value, never re-sliced."
 	properties["C02"].Explanation += " (B2) columns, promises and size are swapped in one critical section; (O1) swapped-out buffers are detached (fresh values), so later appends cannot write into a block that is being sent."
 	properties["C04"].Explanation += " (A11) the announce-cache key is built from disjoint, complete byte ranges fed by both the day and the fingerprint."
+	properties["C19"].Explanation += " (C7) every settings key has a single recording routine, so two routines cannot invalidate each other's record."
 	properties["C05"].Explanation += " (F5) ids that feed FixedString columns are length-checked where they enter the row model, before any column of the shared batch is extended."
 	properties["C06"].Explanation += " (F5) trace/span ids enter the row model only with the exact widths 16/8."
 	properties["C07"].Explanation += " (D7) every planned stage wraps the chain built so far (no stage silently replaces its predecessors)."
